@@ -265,8 +265,14 @@ def _register_merge():
             else:
                 ctx.prove("merge.line_total", Z(m.line_offset) == la + lb)
                 ctx.prove("merge.dropped_breakpoint_is_shadowed", z3.Or(bb == 0, la == 0))
+            if not none0 and not none1:
+                # only what the encoder splits back into the same two entries is merged (C10: byte-for-byte): (b, +127)(0, -5) are two line events, not a jump of +122
+                back = L.expand_items([L.CollapsedLineTableItem(m.line_offset, m.bytecode_offset)], is_lt)
+                ctx.prove("merge.is_undone_by_expand_items(two entries again)", z3.BoolVal(len(back) == 2), detail=repr(back))
+                if len(back) == 2:
+                    ctx.prove("merge.is_undone_by_expand_items(same entries)", z3.And(Z(back[0].line_offset) == la, Z(back[0].bytecode_offset) == ba, Z(back[1].line_offset) == lb, Z(back[1].bytecode_offset) == bb))
         tag = "linetable,none=(%d,%d)" % (none0, none1) if is_lt else "lnotab"
-        harness("lm.collapse_items.merge_step_neutral[%s]" % tag, props=["C10", "C02", "C01"], functions=["code_data._line_mapping.collapse_items"], configs="any",
+        harness("lm.collapse_items.merge_step_neutral[%s]" % tag, props=["C10", "C02", "C01"], functions=["code_data._line_mapping.collapse_items", "code_data._line_mapping.expand_items"], configs="any",
                 assumes=["meta-step: induction over the backwards loop once one iteration on two generic entries is proved"],
                 notes="two symbolic table entries: whenever the real function merges them, CPython's reader assigns every byte the same line before and after")(h)
 
@@ -392,7 +398,7 @@ def _register_pipeline():
                         notes="bounded: 1 assembler-model entry, byte delta %d, line delta symbolic within +-(127*%d+100): per-offset lines equal CPython's reader and the re-encoded table is identical" % (b, K1))(h)
         if not is_lt:
             # the last entry sits exactly at the end of the code (a line event for an instruction the optimizer removed): it must survive decoding
-            for bs in [(b,) for b in B1 if b] + [(2, 2), (254, 2), (2, 256), (0, 4)]:
+            for bs in [(b,) for b in B1 if b] + [(2, 2), (254, 2), (2, 256), (0, 4), (2, 0), (256, 0), (2, 0, 0)]:
                 def h(ctx, cfg, v39=v39, bs=bs):
                     pipeline(ctx, False, bs, (False,) * len(bs), K2, v39, tail=0)
                 harness("lm.pipeline[%s,b=%s,last-entry-at-end-of-code]" % (fmt, ",".join(map(str, bs))), props=["C10", "C01", "C02"],
